@@ -15,9 +15,13 @@ import (
 func TestVerifC19PoolConfig(t *testing.T) {
 	r := ev.New("C19", "daemon-pool-config")
 	defer r.Flush()
-	r.Rule("every limit vector (adapters 1..4, IPv4 per adapter 1..3, IPv6 per adapter {0, same, other}, member limit {0,5}, RDMA adapters 0..2) x daemon configuration (max_eni {0,1,9}, min_eni {0,1,9}, pool sizes max in {-1,0,2,capacity+1} x min in {-1,0,1,3,capacity+1}, IP stack, trunk, RDMA, IPAM type, default capacity ratio 1 / shift 0) through the real getPoolConfig and checkInstance; oracle: MaxENI within the attachable secondary interfaces, Capacity <= MaxENI x addresses per interface, 0 <= MinPoolSize <= MaxPoolSize <= Capacity, RDMA capacity within its limit, IPv6 / trunk / RDMA switched off when the instance type lacks them")
-	for ad := 1; ad <= 4; ad++ {
-		for per := 1; per <= 3; per++ {
+	r.Rule("every limit vector (adapters 1..4, IPv4 per adapter 1..3 (thorough: 1..7, 1..5), IPv6 per adapter {0, same, other}, member limit {0,5}, RDMA adapters 0..2) x daemon configuration (max_eni {0,1,9}, min_eni {0,1,9}, pool sizes max in {-1,0,2,capacity+1} x min in {-1,0,1,3,capacity+1}, IP stack, trunk, RDMA, IPAM type, default capacity ratio 1 / shift 0) through the real getPoolConfig and checkInstance; oracle: MaxENI within the attachable secondary interfaces, Capacity <= MaxENI x addresses per interface, 0 <= MinPoolSize <= MaxPoolSize <= Capacity, RDMA capacity within its limit, IPv6 / trunk / RDMA switched off when the instance type lacks them")
+	maxAd, maxPer := 4, 3
+	if ev.Thorough() {
+		maxAd, maxPer = 7, 5 // thorough: adapters 1..7, addresses per adapter 1..5
+	}
+	for ad := 1; ad <= maxAd; ad++ {
+		for per := 1; per <= maxPer; per++ {
 			for _, v6 := range []int{0, per, per + 1} {
 				for _, member := range []int{0, 5} {
 					for erd := 0; erd <= 2; erd++ {
